@@ -32,6 +32,16 @@ VIEW_F = set(OPS["view_functions"])
 NOT_TENSOR_INPLACE = set(OPS["non_tensor_underscore_methods"])
 CLOSURE_M = set(OPS["closure_methods"])
 CONTAINER_ATTRS = set(OPS["container_attributes"])
+CONTAINER_ALIAS_M = set(OPS.get("container_alias_methods", []))   # dict/list methods: result holds (some of) the receiver's elements
+SCALAR_ATTRS = set(OPS.get("scalar_attributes", []))             # attributes that never hold tensor storage (shape, dtype, ...)
+ALWAYS_TENSOR_ATTRS = set(OPS.get("tensor_attributes", []))       # ctx.saved_tensors: a tuple of tensors by the autograd contract
+TENSOR_ATTRS = set(OPS.get("tensor_view_attributes", []))        # .mT / .T / .data ...: tensor views of a tensor
+TENSOR_RESULT_M = set(OPS.get("tensor_result_methods", []))      # library methods that return a plain tensor whatever the receiver
+NEW_OBJ_M = set(OPS.get("new_object_methods", []))               # maybe-view methods that always return a NEW tensor object
+INT_M = set(OPS.get("scalar_result_methods", []))                # size/dim/numel/item/...: results hold no storage whatever the receiver
+LIB_METHODS = set()     # every method name defined by a class of the package (filled per run from the source)
+TYPES = json.load(open(os.path.join(HERE, "c13_types.json")))
+USED = {}               # (category, name) -> number of call sites classified that way (filled by Analyzer.call)
 RETURNS_FRESH = {}      # bare name of a module-level library function -> True if its results never alias its parameters
 
 
@@ -52,6 +62,10 @@ class Fn:
         self.calls = []          # (callee bare name, [alias sets of positional args], {kw: alias set}, lineno)
         self.mutated_params = set()
         self.list_of_lists = set()
+        self.module_globals = set()
+        self.local_closure_defs = set()   # defs created by a nested def / lambda / partial(...): calling them may return what they captured
+        self.def_kind = {}       # x -> True if the value is known to be a plain tensor / number / tuple of such
+        self.assumed_tensor_params = []
 
 
 class Analyzer(ast.NodeVisitor):
@@ -63,10 +77,11 @@ class Analyzer(ast.NodeVisitor):
         self.helpers = helpers_known
 
     # -- definitions
-    def new_def(self, name, lineno, kind, ys=(), may_fresh=False, obj=None):
+    def new_def(self, name, lineno, kind, ys=(), may_fresh=False, obj=None, kt=False):
         x = self.fn.ndefs
         self.fn.ndefs += 1
         self.fn.def_info[x] = (name, lineno)
+        self.fn.def_kind[x] = bool(kt)
         self.fn.stmts.append(("let", x, kind, sorted(set(ys)), bool(may_fresh)))
         if kind == "param":
             self.fn.obj_stmts.append(("let", x, "param", []))
@@ -114,7 +129,7 @@ class Analyzer(ast.NodeVisitor):
                         return (E, False)
                     return allo
                 recv = self.objalias(f.value)
-                if m in FRESH_M or m in VIEW_M:
+                if m in FRESH_M or m in VIEW_M or m in NEW_OBJ_M or m in INT_M:
                     return (E, False)
                 if m in MAYBE_M or m in META_INPLACE or m in VALUE_PRESERVING or (m.endswith("_") and not m.endswith("__")):
                     return recv
@@ -126,11 +141,108 @@ class Analyzer(ast.NodeVisitor):
             if isinstance(f, ast.Name):
                 if f.id in OPS["pure_builtins"] and f.id not in ("list", "tuple", "reversed", "sorted", "zip", "enumerate", "iter", "next", "dict", "set", "map", "filter", "getattr"):
                     return (E, False)
-                if RETURNS_FRESH.get(f.id):
+                if f.id not in self.env and RETURNS_FRESH.get(f.id) and resolves_to_library_function(self.fn.module, f.id):
                     return (E, False)
                 return allo
             return allo
         return (E, False)
+
+    # -- kinds: True = "known to be a plain torch tensor, a number/str/shape, or a tuple/list of such";
+    #    False = anything else (LinearOperator, dict, closure, unknown object).  Only used to decide whether a method
+    #    name that ALSO exists on library classes (mul, add, sum, cholesky, ...) and the arithmetic operators have
+    #    the tensor semantics of torch_ops.json; on receivers of unknown kind they are treated as Unknown
+    #    (result may alias receiver and operands).
+    def kind(self, e):
+        if e is None or isinstance(e, (ast.Constant, ast.JoinedStr, ast.FormattedValue, ast.Compare, ast.Slice)):
+            return True
+        if isinstance(e, ast.Name):
+            if e.id == "self":
+                return False
+            if e.id in self.env:
+                ds = self.env[e.id]
+                return bool(ds) and all(self.fn.def_kind.get(d, False) for d in ds)
+            return e.id in ("True", "False", "None", "Ellipsis")
+        if isinstance(e, ast.Attribute):
+            if e.attr in SCALAR_ATTRS or e.attr in ALWAYS_TENSOR_ATTRS:
+                return True
+            if e.attr in TENSOR_ATTRS:
+                return self.kind(e.value)
+            if self.is_module(e.value):
+                return e.attr in ("pi", "e", "inf", "nan", "float", "double", "half", "long", "bool", "int", "float32", "float64")
+            return False
+        if isinstance(e, ast.Subscript):
+            return self.kind(e.value)
+        if isinstance(e, ast.BinOp):
+            return self.kind(e.left) and self.kind(e.right)
+        if isinstance(e, ast.UnaryOp):
+            return isinstance(e.op, ast.Not) or self.kind(e.operand)
+        if isinstance(e, (ast.BoolOp,)):
+            return all(self.kind(v) for v in e.values)
+        if isinstance(e, ast.IfExp):
+            return self.kind(e.body) and self.kind(e.orelse)
+        if isinstance(e, (ast.Tuple, ast.List, ast.Set)):
+            return all(self.kind(v) for v in e.elts)
+        if isinstance(e, ast.Starred):
+            return self.kind(e.value)
+        if isinstance(e, ast.NamedExpr):
+            return self.kind(e.value)
+        if isinstance(e, (ast.ListComp, ast.GeneratorExp, ast.SetComp)):
+            saved = dict(self.env)
+            try:
+                for g in e.generators:
+                    self.bind_kind_only(g.target, self.kind(g.iter))
+                return self.kind(e.elt)
+            finally:
+                self.env = saved
+        if isinstance(e, ast.Call):
+            f = e.func
+            argk = all(self.kind(a) for a in e.args) and all(self.kind(k.value) for k in e.keywords)
+            if isinstance(f, ast.Attribute):
+                m = f.attr
+                if self.is_module(f.value):
+                    full = self.dotted(f)
+                    return m in FRESH_F or full in FRESH_F or m in VIEW_F or full in VIEW_F or (m.endswith("_") and not m.startswith("_"))
+                if m in INT_M or m in TENSOR_RESULT_M:
+                    return True
+                if self.is_lib_module(f.value) and m in TYPES.get("tensor_result_functions", []):
+                    return True
+                rk = self.kind(f.value)
+                table = m in FRESH_M or m in VIEW_M or m in MAYBE_M or m in META_INPLACE or m in VALUE_PRESERVING \
+                    or (m.endswith("_") and not m.endswith("__"))
+                if table and m not in LIB_METHODS:
+                    return True             # only torch tensors (and builtin str/list) have this method
+                if table:
+                    return rk
+                if m in CLOSURE_M:
+                    return argk and bool(e.args)      # closure protocol: tensors in, tensors out (validated dynamically)
+                if m in CONTAINER_ALIAS_M:
+                    return rk
+                return False
+            if isinstance(f, ast.Name):
+                nm = f.id
+                if nm in OPS["pure_builtins"]:
+                    if nm in ("list", "tuple", "reversed", "sorted", "zip", "enumerate", "iter", "next", "dict", "set", "map", "filter", "getattr", "sum", "min", "max", "abs", "pow", "round", "super"):
+                        return argk
+                    return True
+                if nm in self.env and self.fn.param_defs.get(nm) in self.env[nm] and len(self.env[nm]) == 1:
+                    return argk and bool(e.args)      # closure parameter: tensors in, tensors out (validated dynamically)
+                if nm not in self.env and nm in TYPES.get("tensor_result_functions", []):
+                    return True
+                return False
+            return False
+        return False
+
+    def bind_kind_only(self, t, k):
+        """bind comprehension targets for kind() evaluation (no IR statement is emitted)"""
+        if isinstance(t, ast.Name):
+            self.fake = getattr(self, "fake", 0) - 1
+            self.fn.def_kind[self.fake] = bool(k)
+            self.env[t.id] = frozenset([self.fake])
+        elif isinstance(t, (ast.Tuple, ast.List)):
+            for el in t.elts:
+                self.bind_kind_only(el, k)
+        elif isinstance(t, ast.Starred):
+            self.bind_kind_only(t.value, k)
 
     def bind(self, name, x):
         self.env[name] = frozenset([x])
@@ -150,6 +262,8 @@ class Analyzer(ast.NodeVisitor):
         if isinstance(e, ast.Name):
             if e.id == "self":
                 return (E, True, False)
+            if e.id not in self.env and e.id in self.fn.module_globals:
+                return (E, True, False)          # module-level object: owned by the library/caller, never by this call
             return (self.env.get(e.id, E), False, e.id not in self.env)
         if isinstance(e, ast.Attribute):
             ys, sa, mf = self.alias(e.value)
@@ -160,11 +274,18 @@ class Analyzer(ast.NodeVisitor):
             self.alias(e.slice)
             return (ys, sa, True)            # view (basic indexing) or copy (advanced indexing)
         if isinstance(e, (ast.BinOp,)):
-            self.alias(e.left), self.alias(e.right)
-            return (E, False, True)
+            a, b = self.alias(e.left), self.alias(e.right)
+            if self.kind(e.left) and self.kind(e.right):
+                self.used("binop", "tensor")
+                return (E, False, True)          # arithmetic on tensors / numbers / shapes allocates
+            self.used("binop", "unknown")
+            r = self.union([a, b])               # operator arithmetic / container concatenation: may share the operands' tensors
+            return (r[0], r[1], True)
         if isinstance(e, ast.UnaryOp):
-            self.alias(e.operand)
-            return (E, False, True)
+            a = self.alias(e.operand)
+            if isinstance(e.op, ast.Not) or self.kind(e.operand):
+                return (E, False, True)
+            return (a[0], a[1], True)
         if isinstance(e, ast.Compare):
             self.alias(e.left)
             for c in e.comparators:
@@ -189,8 +310,9 @@ class Analyzer(ast.NodeVisitor):
         if isinstance(e, (ast.ListComp, ast.GeneratorExp, ast.SetComp, ast.DictComp)):
             saved = dict(self.env)
             for g in e.generators:
+                kt = self.kind(g.iter)
                 it = self.alias(g.iter)
-                self.assign_target(g.target, it, e.lineno)
+                self.assign_target(g.target, it, e.lineno, kt=kt)
                 for c in g.ifs:
                     self.alias(c)
             if isinstance(e, ast.DictComp):
@@ -201,12 +323,16 @@ class Analyzer(ast.NodeVisitor):
             self.env = saved
             return r
         if isinstance(e, ast.Lambda):
-            return (E, False, True)          # analysed as a separate function
+            # the body is analysed as a separate function; the closure VALUE holds (may return) what it captures
+            cap = self.union([self.alias(ast.Name(id=v, ctx=ast.Load())) for v in sorted(free_names(e)) if v in self.env or v == "self"]
+                             or [(E, False, True)])
+            return (cap[0], cap[1], True)
         if isinstance(e, ast.Call):
             return self.call(e)
         if isinstance(e, ast.NamedExpr):
+            kt = self.kind(e.value)
             v = self.alias(e.value)
-            self.assign_target(e.target, v, e.lineno)
+            self.assign_target(e.target, v, e.lineno, kt=kt)
             return v
         if isinstance(e, (ast.Await, ast.Yield, ast.YieldFrom)):
             return self.alias(e.value) if e.value is not None else (E, False, True)
@@ -222,6 +348,15 @@ class Analyzer(ast.NodeVisitor):
         kws = {k.arg: self.alias(k.value) for k in e.keywords}
         allops = args + list(kws.values())
         E = frozenset()
+        inpl = next((k.value for k in e.keywords if k.arg == "inplace"), None)
+        if inpl is not None and not (isinstance(inpl, ast.Constant) and inpl.value in (False, None)):
+            # f(x, ..., inplace=True): torch.nn.functional style in-place call writes its first tensor operand / receiver
+            tgt = args[0] if args else (self.alias(f.value) if isinstance(f, ast.Attribute) else None)
+            if tgt is None:
+                raise Untranslatable("inplace= call without operand at line %s" % e.lineno)
+            self.inplace(tgt, e.lineno, "inplace=")
+            if isinstance(f, ast.Attribute) and not self.is_module(f.value):
+                self.inplace(self.alias(f.value), e.lineno, "inplace=")
         out = kws.get("out")
         if out is not None and not (isinstance(next(k.value for k in e.keywords if k.arg == "out"), ast.Constant)):
             if isinstance(f, ast.Name):
@@ -235,34 +370,57 @@ class Analyzer(ast.NodeVisitor):
             if base_is_torch:
                 full = self.dotted(f)
                 if m in FRESH_F or full in FRESH_F:
+                    self.used("fresh_function", full)
                     return (E, False, True)
                 if m in VIEW_F or full in VIEW_F:
+                    self.used("view_function", full)
                     return self.as_view(self.union(allops or [(E, False, True)]), False)
                 if m.endswith("_") and not m.startswith("_"):
                     # torch.xxx_(tensor, ...) in-place functional form
+                    self.used("inplace_function", full)
                     if args:
                         self.inplace(args[0], e.lineno, "torch.%s" % m)
                         return (args[0][0], args[0][1], False)
+                self.used("unknown_function", full)
                 r = self.union(allops or [(E, False, True)])
                 return (r[0], r[1], True)        # unknown module function: may alias an operand
             if m in VALUE_PRESERVING or m in META_INPLACE:
+                self.used("value_preserving" if m in VALUE_PRESERVING else "metadata_inplace", m)
                 if m in META_INPLACE:
                     self.meta_inplace(f.value, e.lineno, m)
                 return (recv[0], recv[1], False)
             if m.endswith("_") and not m.endswith("__") and m not in NOT_TENSOR_INPLACE:
+                self.used("inplace_method", m)
                 self.inplace(recv, e.lineno, "." + m)
                 return (recv[0], recv[1], False)
+            if m in INT_M:
+                self.used("scalar_result_method", m)
+                return (E, False, True)
+            if m in CONTAINER_ALIAS_M:
+                self.used("container_alias_method", m)
+                r = self.union([recv] + allops)
+                return (r[0], r[1], True)
+            if m in FRESH_M and m in LIB_METHODS and not self.kind(f.value):
+                # the name is also a method of library classes and the receiver is not known to be a tensor
+                self.used("ambiguous_as_unknown", m)
+                self.fn.calls.append((m, args, kws, e.lineno, recv))
+                r = self.union([recv] + allops)
+                return (r[0], r[1], True)
             if m in FRESH_M:
+                self.used("fresh_method", m)
                 return (E, False, True)
             if m in VIEW_M:
+                self.used("view_method", m)
                 return self.as_view(recv, False)
             if m in MAYBE_M:
+                self.used("maybe_view_method", m)
                 return self.as_view(recv, True)
             if m in ("append", "extend", "insert", "add", "update", "setdefault", "pop", "remove", "clear", "sort", "reverse"):
                 # python container mutation: the container now also holds the operands
                 if isinstance(f.value, ast.Name) and f.value.id in self.env and allops:
                     u = self.union([recv] + allops)
-                    x = self.new_def(f.value.id, e.lineno, "alias", u[0], u[2])
+                    x = self.new_def(f.value.id, e.lineno, "alias", u[0], u[2],
+                                     kt=self.kind(f.value) and all(self.kind(z) for z in e.args) and all(self.kind(z.value) for z in e.keywords))
                     if u[1]:
                         self.fn.stmts.append(("let", x, "selfattr", [], False))
                     self.env[f.value.id] = frozenset([x]) | self.env[f.value.id]
@@ -284,19 +442,32 @@ class Analyzer(ast.NodeVisitor):
                     r = self.union(allops or [(E, False, True)])
                     return (r[0], r[1], True)
                 return (E, False, True)
-            self.fn.calls.append((nm, args, kws, e.lineno, None))
-            if nm not in self.env and RETURNS_FRESH.get(nm):
+            self.fn.calls.append((nm if (nm in self.env or resolves_to_library_function(self.fn.module, nm)) else "<unresolved>" + nm,
+                                  args, kws, e.lineno,
+                                  "<star>" if (any(isinstance(a, ast.Starred) for a in e.args) or any(k.arg is None for k in e.keywords)) else None))
+            if nm not in self.env and RETURNS_FRESH.get(nm) and resolves_to_library_function(self.fn.module, nm):
+                self.used("library_function_returning_fresh", nm)
                 return (E, False, True)
             if nm in self.env:
-                # a local callable (closure parameter such as matmul_closure / preconditioner):
-                # its result is fresh or aliases one of its arguments
-                r = self.union(allops or [(E, False, True)])
+                # closure PARAMETER (matmul_closure, preconditioner, ...): by the closure assumption (validated dynamically
+                # for every closure the library builds) its result is fresh or aliases one of its arguments.
+                # Any other local callable (nested def / lambda / partial): additionally whatever the callable captured.
+                ops_ = list(allops)
+                loc = self.env[nm] & self.fn.local_closure_defs
+                if loc:
+                    ops_.append((frozenset(loc), False, False))
+                else:
+                    self.used("closure_param_call", nm)
+                r = self.union(ops_ or [(E, False, True)])
                 return (r[0], r[1], True)
             r = self.union(allops or [(E, False, True)])
             return (r[0], r[1], True)
         # call of a call / subscript etc.
         r = self.union([self.alias(f)] + allops)
         return (r[0], r[1], True)
+
+    def used(self, cat, name):
+        USED[(cat, name)] = USED.get((cat, name), 0) + 1
 
     def meta_inplace(self, recv_expr, lineno, m):
         # metadata-in-place (unsqueeze_, squeeze_, transpose_, resize_ ...) changes no stored value; it changes the
@@ -313,6 +484,13 @@ class Analyzer(ast.NodeVisitor):
         return d is not None and (d.split(".")[0] in ("torch", "math", "np", "numpy", "warnings", "scipy", "itertools",
                                                       "operator", "functools", "settings", "string", "pickle", "logging"))
 
+    def is_lib_module(self, v):
+        """`utils.f(...)`, `linear_operator.utils.f(...)`: a module of the package, not an object"""
+        d = self.dotted(v)
+        return d is not None and d.split(".")[0] in ("utils", "linear_operator", "functions", "sparse", "interpolation", "toeplitz",
+                                                     "cholesky", "lanczos", "linear_cg", "minres", "qr", "permutation", "getitem",
+                                                     "broadcasting", "memoize", "deprecation", "errors", "pinverse", "stochastic_lq")
+
     def dotted(self, v):
         if isinstance(v, ast.Name):
             return v.id if v.id not in self.env else None
@@ -322,19 +500,27 @@ class Analyzer(ast.NodeVisitor):
         return None
 
     # -- statements
-    def assign_target(self, t, a, lineno, obj=None):
+    def assign_target(self, t, a, lineno, obj=None, kt=False):
         if isinstance(t, ast.Name):
-            x = self.new_def(t.id, lineno, "alias" if (a[0] or a[1]) else "fresh", a[0], a[2], obj=obj)
+            x = self.new_def(t.id, lineno, "alias" if (a[0] or a[1]) else "fresh", a[0], a[2], obj=obj, kt=kt)
             if a[1]:
                 self.fn.stmts.append(("let", x, "selfattr", [], False))
             self.bind(t.id, x)
         elif isinstance(t, (ast.Tuple, ast.List)):
             for el in t.elts:
-                self.assign_target(el, (a[0], a[1], True), lineno, obj=obj)
+                self.assign_target(el, (a[0], a[1], True), lineno, obj=obj, kt=kt)
         elif isinstance(t, ast.Starred):
-            self.assign_target(t.value, a, lineno, obj=obj)
+            self.assign_target(t.value, a, lineno, obj=obj, kt=kt)
         elif isinstance(t, ast.Attribute):
-            self.alias(t.value)              # rebinding an attribute: no tensor is written
+            self.alias(t.value)              # rebinding an attribute: no tensor storage is written ...
+            if t.attr in ("data", "grad", "requires_grad", "_base", "names"):
+                # ... except for these tensor attributes: x.data = y replaces the caller's tensor contents
+                raise Untranslatable("assignment to tensor attribute .%s at line %s" % (t.attr, lineno))
+            if isinstance(t.value, ast.Name) and t.value.id == "self" and self.fn.cls is not None \
+                    and self.fn.node.name not in ("__init__", "__new__", "__setstate__", "__init_subclass__"):
+                # ... but the existing object `self` is changed: an in-place site of the object-identity program
+                tt_ = self.new_def("<self.%s>" % t.attr, lineno, "fresh", obj=(frozenset(), True))
+                self.fn.obj_stmts.append(("inplace", tt_, lineno, "attr-rebind:" + t.attr))
         elif isinstance(t, ast.Subscript):
             tgt = self.alias(t.value)
             self.alias(t.slice)
@@ -342,12 +528,36 @@ class Analyzer(ast.NodeVisitor):
                 pass
             elif isinstance(t.value, ast.Name) and t.value.id in self.env and self.is_container(t.value.id):
                 u = self.union([tgt, a])
-                x = self.new_def(t.value.id, lineno, "alias", u[0], u[2])
+                x = self.new_def(t.value.id, lineno, "alias", u[0], u[2], kt=kt and self.kind(t.value))
                 self.env[t.value.id] = frozenset([x]) | self.env[t.value.id]
             else:
                 self.inplace(tgt, lineno, "subscript-assign")
         else:
             raise Untranslatable("assignment target %s" % type(t).__name__)
+
+    def param_is_tensor(self, p):
+        """annotation names only tensors / numbers / shapes, or the parameter is declared in c13_types.json (both are
+        validated against the running library by harness/c13.py)"""
+        decl = TYPES.get("tensor_params", {}).get("%s::%s" % (self.fn.module, self.fn.qual), [])
+        if p.arg in decl:
+            self.fn.assumed_tensor_params.append(p.arg)
+            return True
+        if p.annotation is None:
+            return False
+        try:
+            txt = ast.unparse(p.annotation)
+        except Exception:
+            return False
+        if "LinearOperator" in txt or "Callable" in txt or "Any" in txt or "Dict" in txt or "object" in txt:
+            return False
+        import re as _re
+        words = set(_re.findall(r"[A-Za-z_][A-Za-z_0-9]*", _re.sub(r"(['\"]).*?\1", "", txt)))
+        ok = {"Tensor", "torch", "Float", "Int", "Long", "Bool", "LongTensor", "Optional", "Union", "int", "float", "bool", "str",
+              "Size", "Tuple", "List", "Sequence", "None", "dtype", "device", "IndexType", "slice", "Number", "Shaped", "Integer", "Num"}
+        if words and words <= ok:
+            self.fn.assumed_tensor_params.append(p.arg)
+            return True
+        return False
 
     def is_container(self, name):
         return name in self.containers
@@ -359,6 +569,12 @@ class Analyzer(ast.NodeVisitor):
             if isinstance(n, ast.Assign) and isinstance(n.value, (ast.List, ast.Dict, ast.ListComp, ast.DictComp, ast.Set)) \
                     or (isinstance(n, ast.Assign) and isinstance(n.value, ast.Call) and isinstance(n.value.func, ast.Name)
                         and n.value.func.id in ("list", "dict", "set", "defaultdict", "OrderedDict")):
+                for t in n.targets:
+                    if isinstance(t, ast.Name):
+                        self.containers.add(t.id)
+            if isinstance(n, ast.Assign) and isinstance(n.value, ast.Call) and isinstance(n.value.func, ast.Attribute) \
+                    and n.value.func.attr == "copy" and not n.value.args:
+                # x.copy(): torch tensors have no .copy(); the result is a new python list / dict (shallow copy)
                 for t in n.targets:
                     if isinstance(t, ast.Name):
                         self.containers.add(t.id)
@@ -392,11 +608,11 @@ class Analyzer(ast.NodeVisitor):
                 continue
             if p.arg == "out":
                 # explicit out= buffer: excluded by the property (the caller asks for the write)
-                x = self.new_def(p.arg, node.lineno, "fresh")
+                x = self.new_def(p.arg, node.lineno, "fresh", kt=True)
                 self.bind(p.arg, x)
                 self.fn.params.append(p.arg)
                 continue
-            x = self.new_def(p.arg, node.lineno, "param")
+            x = self.new_def(p.arg, node.lineno, "param", kt=self.param_is_tensor(p))
             self.bind(p.arg, x)
             self.fn.param_defs[p.arg] = x
             self.fn.params.append(p.arg)
@@ -422,19 +638,31 @@ class Analyzer(ast.NodeVisitor):
     def stmt(self, st):
         if isinstance(st, (ast.FunctionDef, ast.AsyncFunctionDef, ast.ClassDef)):
             if not isinstance(st, ast.ClassDef):
-                x = self.new_def(st.name, st.lineno, "fresh")
+                # a nested function holds (may return) whatever it captures from this scope
+                cap = self.union([self.alias(ast.Name(id=v, ctx=ast.Load())) for v in sorted(free_names(st)) if v in self.env or v == "self"]
+                                 or [(frozenset(), False, True)])
+                x = self.new_def(st.name, st.lineno, "alias" if (cap[0] or cap[1]) else "fresh", cap[0], True)
+                if cap[1]:
+                    self.fn.stmts.append(("let", x, "selfattr", [], False))
+                self.fn.local_closure_defs.add(x)
                 self.bind(st.name, x)
             return
         if isinstance(st, ast.Assign):
             o = self.objalias(st.value)
+            kt = self.kind(st.value)
             a = self.alias(st.value)
+            n0 = self.fn.ndefs
             for t in st.targets:
-                self.assign_target(t, a, st.lineno, obj=o)
+                self.assign_target(t, a, st.lineno, obj=o, kt=kt)
+            if any(isinstance(n, ast.Lambda) for n in ast.walk(st.value)) or \
+                    (isinstance(st.value, ast.Call) and (self.dotted(st.value.func) or "").endswith("partial")):
+                self.fn.local_closure_defs.update(range(n0, self.fn.ndefs))
             return
         if isinstance(st, ast.AnnAssign):
             if st.value is not None:
                 o = self.objalias(st.value)
-                self.assign_target(st.target, self.alias(st.value), st.lineno, obj=o)
+                kt = self.kind(st.value)
+                self.assign_target(st.target, self.alias(st.value), st.lineno, obj=o, kt=kt)
             return
         if isinstance(st, ast.AugAssign):
             v = self.alias(st.value)
@@ -445,7 +673,8 @@ class Analyzer(ast.NodeVisitor):
                     and t.id in self.fn.counter_names
                 if not numeric:
                     self.inplace(cur, st.lineno, "augassign")
-                x = self.new_def(t.id, st.lineno, "alias" if (cur[0] or cur[1]) else "fresh", cur[0], True, obj=self.objalias(t))
+                x = self.new_def(t.id, st.lineno, "alias" if (cur[0] or cur[1]) else "fresh", cur[0], True, obj=self.objalias(t),
+                                 kt=self.kind(t) and self.kind(st.value))
                 self.bind(t.id, x)
             elif isinstance(t, ast.Subscript):
                 if isinstance(t.value, ast.Attribute) and t.value.attr in CONTAINER_ATTRS:
@@ -476,15 +705,24 @@ class Analyzer(ast.NodeVisitor):
         if isinstance(st, (ast.For, ast.AsyncFor, ast.While)):
             e0 = dict(self.env)
             seen = [e0]
-            for _ in range(3):           # reaching definitions through the back edge
+            prev_sig = None
+            for _round in range(12):     # reaching definitions through the back edge, iterated to a fixed point
                 if isinstance(st, ast.While):
                     self.alias(st.test)
                 else:
-                    self.assign_target(st.target, self.alias(st.iter), st.lineno, obj=self.objalias(st.iter))
-                mark = len(self.fn.stmts)
+                    kt_ = self.kind(st.iter)
+                    self.assign_target(st.target, self.alias(st.iter), st.lineno, obj=self.objalias(st.iter), kt=kt_)
                 self.block_tracking(st.body, seen)
                 seen.append(dict(self.env))
                 self.env = self.merge(seen)
+                # signature: for every name, the source positions (and kinds) of the definitions reaching the loop head
+                sig = {k: frozenset((self.fn.def_info.get(d, ("?", d)), self.fn.def_kind.get(d, False)) for d in v)
+                       for k, v in self.env.items()}
+                if sig == prev_sig and _round >= 1:
+                    break
+                prev_sig = sig
+            else:
+                raise Untranslatable("loop at line %s: reaching definitions did not stabilise" % st.lineno)
             self.block(st.orelse)
             self.env = self.merge(seen + [self.env])
             return
@@ -503,7 +741,7 @@ class Analyzer(ast.NodeVisitor):
             for h in st.handlers:
                 self.env = self.merge(seen + after)
                 if h.name:
-                    self.bind(h.name, self.new_def(h.name, h.lineno, "fresh"))
+                    self.bind(h.name, self.new_def(h.name, h.lineno, "fresh", kt=True))
                 self.block(h.body)
                 after.append(dict(self.env))
             self.env = self.merge(after)
@@ -561,6 +799,7 @@ def collect_functions(tree, module):
             elif isinstance(ch, (ast.FunctionDef, ast.AsyncFunctionDef, ast.Lambda)):
                 name = getattr(ch, "name", "<lambda@%d>" % ch.lineno)
                 fn = Fn(prefix + name, ch, module, cls if isinstance(node, ast.ClassDef) else None)
+                fn.module_globals = MODULE_INFO.get(module, {}).get("globals", set())
                 locs = set()
                 body = ch.body if isinstance(ch.body, list) else [ch.body]
                 for b in body:
@@ -621,12 +860,63 @@ def parse_package(repo):
     return trees
 
 
+MODULE_INFO = {}        # module path -> {"defs": top-level function names, "imports": local name -> (from-module text, original name, is_package_import), "globals": names}
+
+
+def module_info(tree):
+    defs, imports, globs = set(), {}, set()
+    for n in tree.body:
+        if isinstance(n, (ast.FunctionDef, ast.AsyncFunctionDef)):
+            defs.add(n.name)
+        elif isinstance(n, ast.ImportFrom):
+            frm = ("." * n.level) + (n.module or "")
+            pkg = n.level > 0 or (n.module or "").split(".")[0] == "linear_operator"
+            for a in n.names:
+                imports[a.asname or a.name] = (frm, a.name, pkg)
+        elif isinstance(n, ast.Import):
+            for a in n.names:
+                imports[(a.asname or a.name).split(".")[0]] = (a.name, None, a.name.split(".")[0] == "linear_operator")
+        elif isinstance(n, (ast.Assign, ast.AnnAssign)):
+            v = n.value
+            simple = v is None or isinstance(v, ast.Constant) or (
+                isinstance(v, (ast.Tuple, ast.List, ast.Set, ast.Dict)) and all(isinstance(c, (ast.Constant, ast.Name, ast.Attribute, ast.Tuple, ast.List))
+                                                                              for c in ast.iter_child_nodes(v) if not isinstance(c, ast.expr_context)))
+            tg = n.targets if isinstance(n, ast.Assign) else [n.target]
+            for t in tg:
+                if isinstance(t, ast.Name) and not simple:
+                    globs.add(t.id)
+    return {"defs": defs, "imports": imports, "globals": globs}
+
+
+def resolves_to_library_function(module, nm):
+    """bare name `nm` used in `module` denotes the package's module-level function of that name"""
+    mi = MODULE_INFO.get(module)
+    if mi is None:
+        return False
+    if nm in mi["defs"]:
+        return True
+    imp = mi["imports"].get(nm)
+    return bool(imp and imp[2] and imp[1] == nm)
+
+
 def analyze_package(repo):
     trees = parse_package(repo)
+    MODULE_INFO.clear()
+    for _mod, _tree in trees:
+        MODULE_INFO[_mod] = module_info(_tree)
     RETURNS_FRESH.clear()
+    USED.clear()
+    LIB_METHODS.clear()
+    for _mod, _tree in trees:
+        for _n in ast.walk(_tree):
+            if isinstance(_n, ast.ClassDef):
+                for _c in _n.body:
+                    if isinstance(_c, (ast.FunctionDef, ast.AsyncFunctionDef)):
+                        LIB_METHODS.add(_c.name)
     fns = []
     for rnd in range(4):
         fns = []
+        USED.clear()
         for mod, tree in trees:
             fns += collect_functions(tree, mod)
         for fn in fns:
@@ -662,6 +952,19 @@ def analyze_package(repo):
             mp = mutated_params(fn)
             if mp:
                 helpers[fn.qual] = (fn, mp)
+    # a function is only treated as a borrowing helper if EVERY reference to its name in the package is a direct call
+    # `name(...)`; otherwise its writes stay violations of its own program (fail-closed)
+    for hname in list(helpers):
+        ok = True
+        for _mod, tree in trees:
+            callfuncs = {id(n.func) for n in ast.walk(tree) if isinstance(n, ast.Call)}
+            for n in ast.walk(tree):
+                if (isinstance(n, ast.Name) and n.id == hname and id(n) not in callfuncs) or \
+                        (isinstance(n, ast.Attribute) and n.attr == hname) or \
+                        (isinstance(n, ast.alias) and n.name == hname and n.asname not in (None, hname)):
+                    ok = False
+        if not ok:
+            del helpers[hname]
     # expand call sites of helpers (transitively: helpers calling helpers)
     changed = True
     rounds = 0
@@ -670,6 +973,8 @@ def analyze_package(repo):
         rounds += 1
         for fn in fns:
             for (callee, args, kws, lineno, recv) in fn.calls:
+                if callee in helpers and recv == "<star>":
+                    raise Untranslatable("%s:%s line %s: in-place helper %s called with *args/**kwargs" % (fn.module, fn.qual, lineno, callee))
                 if callee in helpers and recv is None:
                     hf, mp = helpers[callee]
                     for pname in mp:
@@ -865,53 +1170,158 @@ def ident(s):
     return re.sub(r"[^A-Za-z0-9_]", "_", s)
 
 
+def find_path(prog, target):
+    """witness path [target, ..., source] through the Let statements (BFS backwards), or None"""
+    srcs = {s[1] for s in prog if s[0] == "let" and s[2] in ("param", "selfattr")}
+    preds = {}
+    for s_ in prog:
+        if s_[0] == "let" and s_[2] == "alias":
+            preds.setdefault(s_[1], set()).update(s_[3])
+    seen = {target: None}
+    queue = [target]
+    while queue:
+        x = queue.pop(0)
+        if x in srcs:
+            path = [x]
+            while seen[path[-1]] is not None:
+                path.append(seen[path[-1]])
+            return list(reversed(path))
+        for y in sorted(preds.get(x, ())):
+            if y not in seen:
+                seen[y] = x
+                queue.append(y)
+    return None
+
+
 def emit(fns, helpers, allow):
-    """returns (coq source, table) ; table rows: dict(name, module, qual, kind, n_inplace, ok, failing sites)"""
+    """returns (coq source, table).
+    table rows: dict(name, module, qual, kind, sites=[{line, why, status: ok|allowed|failing, allow_id}], ok)
+    * sites whose target may hold caller storage and that are not allow-listed are FAILING: they are left out of the
+      program whose own_check lemma is emitted (so that the file compiles) and each gets a refutation witness
+      (Proofs.refute_check) over the full program; harness/c13.py reports every failing site.
+    * allow-listed sites are left out and listed (each with a written justification in c13_allow.json)."""
     L = ["(* GENERATED by harness/own_ir.py from the linear_operator sources — do not edit *)",
-         "From Coq Require Import List Arith Bool.", "Import ListNotations.", "Require Import C13.Own.", ""]
+         "From Coq Require Import List Arith Bool.", "Import ListNotations.", "Require Import C13.Own C13.Proofs.", ""]
     table = []
-    names = []
+    names, refuted, summaries = [], [], []
     k = 0
     for fn in fns:
         sp, op = final_programs(fn, helpers)
         for kind, prog in (("storage", sp), ("object", op)):
             if not any(s[0] == "inplace" for s in prog):
                 continue
-            # allow-listed in-place sites are removed from the program and listed in the table
-            allowed = []
-            kept = []
+            lets = [s for s in prog if s[0] == "let"]
+            mc_all = cand(lets)
+            sites, kept = [], []
+            seen_sites = set()
             for s in prog:
-                if s[0] == "inplace":
-                    tname = fn.def_info.get(s[1], ("?", 0))[0]
-                    a = allow_match(allow, fn, s, kind)
-                    if a is not None:
-                        allowed.append(a["id"])
-                        continue
-                kept.append(s)
-            prog2 = prune(kept)
+                if s[0] != "inplace":
+                    continue
+                a = allow_match(allow, fn, s, kind)
+                status = "allowed" if a is not None else ("failing" if s[1] in mc_all else "ok")
+                sites.append({"line": s[2], "why": s[3], "status": status, "allow_id": a["id"] if a else None, "target": s[1]})
+                if status == "ok":
+                    kept.append(s)
+            prog2 = prune(lets + kept)
             mc = sorted(cand(prog2))
-            bad = [s for s in prog2 if s[0] == "inplace" and s[1] in mc]
             nm = "p%d_%s_%s" % (k, ident(fn.qual)[:60], kind)
             k += 1
-            L.append("(* %s :: %s  (%s program; %d in-place sites) *)" % (fn.module, fn.qual, kind, sum(1 for s in prog2 if s[0] == "inplace")))
+            L.append("(* %s :: %s  (%s program; %d in-place sites checked, %d allow-listed, %d failing) *)" % (
+                fn.module, fn.qual, kind, len(kept), sum(1 for x in sites if x["status"] == "allowed"),
+                sum(1 for x in sites if x["status"] == "failing")))
             body = ";\n  ".join(coq_stmt(s) for s in prog2)
             L.append("Definition %s : list stmt := [\n  %s]." % (nm, body))
             L.append("Definition mc_%s : list nat := [%s]." % (nm, "; ".join(str(x) for x in mc)))
             L.append("Lemma own_%s : own_check (mem mc_%s) %s = true.\nProof. vm_compute. reflexivity. Qed.\n" % (nm, nm, nm))
             names.append(nm)
-            table.append({"name": nm, "module": fn.module, "qual": fn.qual, "kind": kind,
-                          "n_inplace": sum(1 for s in prog2 if s[0] == "inplace"), "ok": not bad, "allowed": allowed,
-                          "failing": [{"line": s[2], "why": s[3], "target": fn.def_info.get(s[1], ("?", 0))[0]} for s in bad]})
+            # refutation witnesses for failing sites (one per distinct source line / reason)
+            for st_ in sites:
+                if st_["status"] != "failing" or (st_["line"], st_["why"]) in seen_sites:
+                    continue
+                seen_sites.add((st_["line"], st_["why"]))
+                full = prune(lets + [("inplace", st_["target"], st_["line"], st_["why"])])
+                path = find_path(full, st_["target"])
+                if path is None:
+                    raise Untranslatable("internal: no witness path for failing site %s:%s line %s" % (fn.module, fn.qual, st_["line"]))
+                rn = "r%d_%s_%s_l%d" % (len(refuted), ident(fn.qual)[:50], kind, st_["line"])
+                L.append("(* FAILING in-place site %s :: %s line %d (%s): the target may hold caller-owned %s *)" % (
+                    fn.module, fn.qual, st_["line"], st_["why"], "storage" if kind == "storage" else "object"))
+                L.append("Definition %s : list stmt := [\n  %s]." % (rn, ";\n  ".join(coq_stmt(s) for s in full)))
+                L.append("Definition path_%s : list nat := [%s]." % (rn, "; ".join(str(x) for x in path)))
+                L.append("Lemma refuted_%s : refute_check %s path_%s = true.\nProof. vm_compute. reflexivity. Qed.\n" % (rn, rn, rn))
+                refuted.append(rn)
+                st_["refutation"] = rn
+            for st_ in sites:
+                st_.pop("target", None)
+            defs = {}
+            if kind == "storage":
+                # for the trace correspondence (harness/c13_trace.py): source definitions (name, line) -> IR variables,
+                # whether some of them may hold caller storage, and which of them are part of the emitted program
+                inprog = {s_[1] for s_ in prog2 if s_[0] == "let"}
+                for s_ in lets:
+                    nm_, ln_ = fn.def_info.get(s_[1], ("?", 0))
+                    if nm_.startswith("<"):
+                        continue
+                    d_ = defs.setdefault("%s@%d" % (nm_, ln_), {"ids": [], "mc": False, "inprog": []})
+                    if s_[1] not in d_["ids"]:
+                        d_["ids"].append(s_[1])
+                        d_["mc"] = d_["mc"] or (s_[1] in mc_all)
+                        if s_[1] in inprog:
+                            d_["inprog"].append(s_[1])
+            borrowed_names = sorted(helpers[fn.qual][1]) if (fn.qual in helpers and fn.cls is None) else []
+            table.append({"name": nm, "module": fn.module, "qual": fn.qual, "kind": kind, "sites": sites, "defs": defs,
+                          "borrowed": borrowed_names, "first_line": fn.node.lineno,
+                          "n_inplace": len(kept), "ok": not any(x["status"] == "failing" for x in sites),
+                          "allowed": sorted({x["allow_id"] for x in sites if x["status"] == "allowed"}),
+                          "failing": [{"line": x["line"], "why": x["why"], "refutation": x.get("refutation")} for x in sites if x["status"] == "failing"]})
+    # return summaries used at call sites
+    by_name = {}
+    for fn in fns:
+        if fn.cls is None and "." not in fn.qual:
+            by_name.setdefault(fn.qual, []).append(fn)
+    for nm_ in sorted(RETURNS_FRESH):
+        fn = by_name[nm_][0]
+        sp, _ = final_programs(fn, helpers)
+        lets = [s for s in sp if s[0] == "let"]
+        rets = sorted(set().union(*[set(r[0]) for r in fn.ret_sets])) if fn.ret_sets else []
+        need = set(rets)
+        ch = True
+        while ch:
+            ch = False
+            for s_ in lets:
+                if s_[1] in need:
+                    for y in s_[3]:
+                        if y not in need:
+                            need.add(y)
+                            ch = True
+        prog_r = [s_ for s_ in lets if s_[1] in need]
+        mc = sorted(cand(prog_r))
+        sn = "s%d_%s" % (len(summaries), ident(nm_)[:60])
+        L.append("(* return summary: %s :: %s never returns memory of its arguments *)" % (fn.module, nm_))
+        L.append("Definition %s : list stmt := [\n  %s]." % (sn, ";\n  ".join(coq_stmt(s_) for s_ in prog_r)))
+        L.append("Definition mc_%s : list nat := [%s]." % (sn, "; ".join(str(x) for x in mc)))
+        L.append("Definition rets_%s : list nat := [%s]." % (sn, "; ".join(str(x) for x in rets)))
+        L.append("Lemma ret_%s : ret_check mc_%s %s rets_%s = true.\nProof. vm_compute. reflexivity. Qed.\n" % (sn, sn, sn, sn))
+        summaries.append(sn)
     L.append("Definition all_progs : list (list stmt * list nat) := [\n  %s]." % ";\n  ".join("(%s, mc_%s)" % (n, n) for n in names))
     L.append("Lemma all_owned : forallb (fun p => own_check (mem (snd p)) (fst p)) all_progs = true.")
     L.append("Proof. vm_compute. reflexivity. Qed.")
+    L.append("Definition refuted_sites : list (list stmt * list nat) := [%s]." % (
+        "\n  " + ";\n  ".join("(%s, path_%s)" % (n, n) for n in refuted) if refuted else ""))
+    L.append("Lemma all_refuted : forallb (fun p => refute_check (fst p) (snd p)) refuted_sites = true.")
+    L.append("Proof. vm_compute. reflexivity. Qed.")
+    L.append("Definition summaries : list (list nat * list stmt * list nat) := [%s]." % (
+        "\n  " + ";\n  ".join("(mc_%s, %s, rets_%s)" % (n, n, n) for n in summaries) if summaries else ""))
+    L.append("Lemma all_summaries_ok : forallb (fun q => ret_check (fst (fst q)) (snd (fst q)) (snd q)) summaries = true.")
+    L.append("Proof. vm_compute. reflexivity. Qed.")
     L.append("Definition n_functions_scanned : nat := %d." % len(fns))
+    L.append("Definition n_programs : nat := %d." % len(names))
     return "\n".join(L) + "\n", table
 
 
 def allow_match(allow, fn, s, kind):
-    tname = fn.def_info.get(s[1], ("?", 0))[0]
     for a in allow or []:
-        if a["module"] == fn.module and a["qual"] == fn.qual and a["why"] == s[3] and a.get("kind", "storage") == kind:
+        if a["module"] == fn.module and a["qual"] == fn.qual and a.get("kind", "storage") == kind and \
+                (a["why"] == s[3] or (a["why"].endswith("*") and s[3].startswith(a["why"][:-1]))):
             return a
     return None
